@@ -1998,6 +1998,13 @@ class MZgate(Gate):
     def __init__(self, phi_in, phi_ex):
         super().__init__([phi_in, phi_ex])
 
+    def apply(self, reg, backend, **kwargs):
+        # phi_in = 0 is not the identity for this gate (it is a swap with phases), so the
+        # "first parameter zero means identity" shortcut of Gate.apply must not be taken
+        if self.dagger:
+            return super().apply(reg, backend, **kwargs)
+        return self._apply([rr.ind for rr in reg], backend, **kwargs)
+
     def _apply(self, reg, backend, **kwargs):
         phi_in, phi_ex = par_evaluate(self.p)
         backend.mzgate(phi_in, phi_ex, *reg)
